@@ -310,6 +310,82 @@ fn case2<T: Elem>(case: u64, args: &Args, ev: &mut Ev) {
     }
 }
 
+/// The same property while several threads share the interpolator, on long axes (thousands of
+/// knots): every row that brackets none of the pool's queries is poisoned with NaN; each answer
+/// must equal, bit for bit, what a single-threaded interpolator over the clean data gives.
+fn shared_long_axis(ev: &mut Ev, seed: u64, iters: usize) {
+    use vh::ndarray::Array2;
+    use vh::ndarray_interp::interp1d::{Interp1D, Linear};
+    let mut rng = Rng::derive(seed, "C20-shared-long-axis", &[0]);
+    for (round, n) in [4600usize, 9000, 300].into_iter().enumerate() {
+        let mut pos = -7.25;
+        let x: Array1<f64> = (0..n)
+            .map(|_| {
+                let v = pos;
+                pos += 0.125 * (1 + rng.below(16)) as f64;
+                v
+            })
+            .collect();
+        let clean: Array2<f64> = Array2::from_shape_fn((n, 2), |(i, l)| ((i * 37 + l * 11) % 101) as f64 * 0.375 - 9.0 + i as f64 * 0.001);
+        let pool: Vec<f64> = (0..24).map(|_| x[0] + rng.f01() * (x[n - 1] - x[0])).collect();
+        let reference: Vec<Vec<u64>> = {
+            let a = Interp1D::builder(clean.clone()).x(x.clone()).strategy(Linear::new()).build().unwrap();
+            pool.iter().map(|&q| a.interp(q).unwrap().iter().map(|v| v.to_bits()).collect()).collect()
+        };
+        let mut poisoned = clean.clone();
+        let xs = x.to_vec();
+        let keep: std::collections::HashSet<usize> = pool.iter().flat_map(|&q| { let i = scan(&xs, q); [i, i + 1] }).collect();
+        let mut n_poisoned = 0u64;
+        for i in 0..n {
+            if !keep.contains(&i) {
+                poisoned.row_mut(i).fill(f64::NAN);
+                n_poisoned += 1;
+            }
+        }
+        let shared = Interp1D::builder(poisoned).x(x.clone()).strategy(Linear::new()).build().unwrap();
+        let threads = 8;
+        let barrier = std::sync::Barrier::new(threads);
+        let seeds: Vec<u64> = (0..threads).map(|_| rng.next_u64()).collect();
+        let bad: Vec<Option<(usize, Vec<f64>)>> = std::thread::scope(|s| {
+            let hs: Vec<_> = seeds
+                .iter()
+                .map(|&sd| {
+                    let (pool, reference, barrier, shared) = (&pool, &reference, &barrier, &shared);
+                    s.spawn(move || {
+                        let mut r = Rng::new(sd);
+                        barrier.wait();
+                        for _ in 0..iters {
+                            let k = r.below(pool.len());
+                            let got = shared.interp(pool[k]).unwrap();
+                            if !got.iter().zip(&reference[k]).all(|(a, b)| a.to_bits() == *b) {
+                                return Some((k, got.to_vec()));
+                            }
+                        }
+                        None
+                    })
+                })
+                .collect();
+            hs.into_iter().map(|h| h.join().expect("thread panicked")).collect()
+        });
+        ev.add("shared_long_axis_queries", (threads * iters) as u64);
+        ev.add("values_poisoned", n_poisoned * 2);
+        if let Some((k, got)) = bad.into_iter().flatten().next() {
+            ev.violation(
+                "C20:depends-on-non-bracketing-point",
+                &format!(
+                    "{n}-knot axis shared by {threads} threads, every non-bracketing row NaN: q={:?} gave {:?}, the clean single-threaded interpolator {:?}",
+                    pool[k],
+                    got,
+                    reference[k].iter().map(|b| f64::from_bits(*b)).collect::<Vec<_>>()
+                ),
+                9_950_000 + round as u64,
+                J::obj().set("n", n).set("phase", "shared-long-axis"),
+            );
+            return;
+        }
+    }
+}
+
 fn main() {
     let args = Args::parse("C20");
     let n = args.budget(600, 200000);
@@ -322,6 +398,10 @@ fn main() {
             (_, true) => case2::<f32>(case, &args, ev),
         }
     });
+    let mut ev = ev;
+    if args.only.is_none() && args.shard == 0 && !cfg!(miri) {
+        shared_long_axis(&mut ev, args.seed, if args.thorough() { 1_000_000 } else { 150_000 });
+    }
     ev.finish(
         &args,
         "Linear / Bilinear data sets (all axis classes incl. ulp-clusters), in range and extrapolated; \
